@@ -1,5 +1,5 @@
 """Broker-level correspondence (tier T1): session scripts -> Coq labels, model evaluation, comparison."""
-import json, os, re, subprocess, sys
+import json, os, re, subprocess, sys, time
 import vlib
 from vlib import log
 
@@ -239,6 +239,9 @@ def parse_stream(text):
     return sessions
 
 
+GEN_TIMEOUTS = []
+
+
 def gen_sessions(exe, seed, n, steps, kind="exact", rabbit=-1, engine="", procs=12, settle=0, focus=""):
     """Run n generated sessions split over several broker processes (a broker panic kills only its process)."""
     work = os.path.join(vlib.WORK, "broker-%d" % os.getpid())
@@ -252,16 +255,23 @@ def gen_sessions(exe, seed, n, steps, kind="exact", rabbit=-1, engine="", procs=
         jobs.append((first, cnt, subprocess.Popen(cmd, stdout=subprocess.PIPE, stderr=subprocess.PIPE, text=True)))
     sessions = []
     crashes = []
+    t_end = time.time() + 600 + (per * steps) // 3
     for first, cnt, p in jobs:
+        timed_out = False
         try:
-            out, err = p.communicate(timeout=600)
+            out, err = p.communicate(timeout=max(5, t_end - time.time()))
         except subprocess.TimeoutExpired:
+            # the generator ran out of time (a loaded machine, bcrypt handshakes): the sessions it finished are kept,
+            # the rest is not an observation of the broker (a wedged broker is reported by the session itself: WEDGED)
             p.kill()
             out, err = p.communicate()
-            err += "\nHARNESS TIMEOUT"
+            timed_out = True
+            GEN_TIMEOUTS.append((first, cnt))
         ss = parse_stream(out)
+        if timed_out and ss and not ss[-1].get("ended"):
+            ss = ss[:-1]
         sessions += ss
-        if p.returncode != 0:
+        if p.returncode != 0 and not timed_out:
             crashes.append(dict(first=first, count=cnt, rc=p.returncode, stderr=err[-3000:],
                                 session=ss[-1] if ss else None))
     import shutil
